@@ -6,8 +6,7 @@ META = {
             "d = max(0, s-8) source bucket k belongs to target bucket floor(k/2^d)+1 at schema s-d and every target bucket holds the sum "
             "of the source buckets it covers; explicit buckets map index by index to custom buckets. convertBucketsLayout is transcribed "
             "as a state machine (one action per loop iteration) and TLC checks, for every generated array, that the decoded sparse "
-            "layout equals the reference (exactly without down-scaling and in explicit mode; with down-scaling except for the recorded "
-            "deviation KF-C43-1), that totals are preserved and the layout is well formed. Every array is replayed through "
+            "layout equals the reference, that totals are preserved and the layout is well formed. Every array is replayed through "
             "PrometheusConverter.FromMetrics into a recording AppenderV2: the appended histogram's spans/deltas are decoded "
             "independently and compared bucket by bucket with the reference, together with schema, the other side, zero count, count, "
             "sum and timestamps; a case table (gauge/sum x int/double, NoRecordedValue, temporality, HasSum) fixes values, stale "
@@ -48,7 +47,7 @@ def run(ctx):
     if os.environ.get("VERIF_CORRUPT"):
         # binding self-test (notes/C43.md): move one predicted bucket of one array without deviation
         for b in behs:
-            if b["want"] and not b["kf"]:
+            if b["want"]:
                 b["want"][0][0] += 1
                 ctx.log("VERIF_CORRUPT: corrupted one array")
                 break
